@@ -1501,11 +1501,15 @@ class Backend:
         targets = self.build.get_benchmarks() if benchmark else self.build.get_tests()
         for t in targets:
             exe = t.exe
+            if isinstance(exe, build.LocalProgram):
+                exe = exe.program
             if isinstance(exe, build.CustomTargetIndex):
                 yield exe.target
             elif isinstance(exe, (build.CustomTarget, build.BuildTarget)):
                 yield exe
             for arg in t.cmd_args:
+                if isinstance(arg, build.LocalProgram):
+                    arg = arg.program
                 if isinstance(arg, build.CustomTargetIndex):
                     yield arg.target
                 elif isinstance(arg, (build.CustomTarget, build.BuildTarget)):
